@@ -25,89 +25,56 @@ theorem namesGE_index {sp ty b i} {T : List String} (h : ∀ x ∈ Frag.namesGE 
     · exact h x (Or.inl (Or.inr hx))
     · exact h x (Or.inr (Or.inr hx))
 
-/-- **`l[i] = e` and `l[i] op= e`**, given the value-position expressions at the two fuels below. -/
-theorem idxAssign_step (G : GCtx) (n : Nat) (hPX0 : PX G n) (hPX1 : PX G (n + 1))
+/-- The left-hand side of an assignment to a heap slot is simulated: the specification's `evalPlace`
+resolves the slot `pl`; the VM has pushed the slot's current value with the slot as its origin. -/
+def SimPl (G : GCtx) (A : Act) (ip n : Nat) (stk : List SVal) (mem : Mem) (st : St)
+    (r : Except Ctl Place × St) : Prop :=
+  match r with
+  | (.ok pl, st') =>
+    st' = { st with out := st'.out, heap := st'.heap } ∧ pl.var = none ∧
+      ∃ mem' cur, readPlace pl st' = (.ok cur, st') ∧
+        Runs G.fr G.code G.lim G.s A.fn A.rest A.mp ip stk mem st.world (ip + n) (⟨cur, some (orgOf pl)⟩ :: stk) mem' st'.world ∧
+        MemLe G.fr A.mp mem mem'
+  | (.error c, st') => SimGE G A ip n stk mem st (.error c, st')
+
+theorem SimPl.of_error {G : GCtx} {A : Act} {ip n stk mem st c st'}
+    (h : SimGE G A ip n stk mem st (.error c, st')) : SimPl G A ip n stk mem st (.error c, st') := h
+
+/-- **`l = e` and `l op= e` for a heap slot `l`**, given the slot (`SimPl`) and the value-position
+expressions at the fuel of the right-hand side. -/
+theorem placeAssign_step (G : GCtx) (n : Nat) (hPX1 : PX G (n + 1))
     (A : Act) (hA : A.OK G) (loops : List (String × String)) (lscopes : CScopes) (d : Nat)
-    (sp asp : Span) (op : Option InfixOp) (isp : Span) (ity : Ty) (b i r : Expr)
+    (asp : Span) (op : Option InfixOp) (l r : Expr) (cl : SCode × LM)
     (env : CEnv) (spec : St) (ip : Nat) (stk : List SVal) (mem : Mem)
-    (hs : Frag.okFS G.fr (!loops.isEmpty) A.rt (.exprS sp (.assign asp op (.index isp ity b i) r)) = true)
-    (hT : ∀ x ∈ Frag.identsGS (.exprS sp (.assign asp op (.index isp ity b i) r)), x ∈ A.T)
-    (hws : Frag.wsGS G.mod A.src A.φ loops (.exprS sp (.assign asp op (.index isp ity b i) r)) env = true)
-    (hpl : Placed A.lab A.σ A.c ip (cgS G.mod A.src A.φ loops (.exprS sp (.assign asp op (.index isp ity b i) r)) env).1)
+    (hop : opOK op = true) (hr : Frag.okXE r = true) (hwr : Frag.wsGE env.scopes A.φ r = true)
+    (hTr : ∀ x ∈ Frag.namesGE r, x ∈ A.T)
+    (hpl : Placed A.lab A.σ A.c ip (cl.1 ++ opPre op asp ++ (cgE G.mod (ρS env.scopes) A.φ r cl.2).1 ++ opPost op asp ++
+      [(.assign, asp)]))
     (hls : lscopes = env.scopes.drop d)
-    (hrel : GRel G A env.scopes env.vm spec.scopes mem) (hsp : SpecOK G A.mp spec) :
+    (hrel : GRel G A env.scopes env.vm spec.scopes mem) (hsp : SpecOK G A.mp spec)
+    (hplace : SimPl G A ip (nI cl.1) stk mem spec (evalPlace G.cfg (n + 1) l spec)) :
     SimGS G A loops lscopes d ip
-      (nI (cgS G.mod A.src A.φ loops (.exprS sp (.assign asp op (.index isp ity b i) r)) env).1) stk mem
-      (GRel G A (cgS G.mod A.src A.φ loops (.exprS sp (.assign asp op (.index isp ity b i) r)) env).2.scopes
-        (cgS G.mod A.src A.φ loops (.exprS sp (.assign asp op (.index isp ity b i) r)) env).2.vm) spec
-      (evalExpr G.cfg (n + 2) (.assign asp op (.index isp ity b i) r) spec) := by
-  simp only [okFS_idxAssign, Bool.and_eq_true] at hs
-  obtain ⟨⟨⟨hop, hl⟩, hr⟩, _⟩ := hs
-  simp only [Frag.okXE, Bool.and_eq_true] at hl
-  obtain ⟨⟨hb, hi⟩, _⟩ := hl
-  simp only [wsGS_idxAssign, Bool.and_eq_true] at hws
-  obtain ⟨hwl, hwr⟩ := hws
-  obtain ⟨hwb, hwi⟩ := wsGE_index hwl
-  simp only [identsGS_idxAssign, List.mem_append] at hT
-  obtain ⟨hTb, hTi⟩ := namesGE_index (fun x hx => hT x (Or.inl hx))
-  have hTr : ∀ x ∈ Frag.namesGE r, x ∈ A.T := fun x hx => hT x (Or.inr hx)
-  simp only [cgS_idxAssign, cgE] at hpl ⊢
-  generalize hCB : cgE G.mod (ρS env.scopes) A.φ b env.lm = CB at hpl ⊢
-  generalize hCI : cgE G.mod (ρS env.scopes) A.φ i CB.2 = CI at hpl ⊢
-  generalize hCR : cgE G.mod (ρS env.scopes) A.φ r CI.2 = CR at hpl ⊢
+      (nI (cl.1 ++ opPre op asp ++ (cgE G.mod (ρS env.scopes) A.φ r cl.2).1 ++ opPost op asp ++ [(.assign, asp)])) stk mem
+      (GRel G A env.scopes env.vm) spec
+      (evalExpr G.cfg (n + 2) (.assign asp op l r) spec) := by
+  generalize hCR : cgE G.mod (ρS env.scopes) A.φ r cl.2 = CR at hpl ⊢
   obtain ⟨h1234, hplS⟩ := hpl.append
   obtain ⟨h123, hplO⟩ := h1234.append
   obtain ⟨h12, hplR⟩ := h123.append
-  obtain ⟨h1, hplD⟩ := h12.append
-  obtain ⟨hBI, hplX⟩ := h1.append
-  obtain ⟨hpB, hpI⟩ := hBI.append
-  obtain ⟨iidx, _⟩ := hplX.instr (i := .index) rfl
+  obtain ⟨_, hplD⟩ := h12.append
   obtain ⟨iasg, _⟩ := hplS.instr (i := .assign) rfl
-  have hnX : nI [((Instr.index : SInstr), isp)] = 1 := rfl
   have hnS : nI [((Instr.assign : SInstr), asp)] = 1 := rfl
-  simp only [nI_append, hnX, hnS] at iidx iasg hpI hplD hplR hplO ⊢
-  simp only [← Nat.add_assoc] at iidx iasg hplD hplR hplO
-  rw [evalExpr_assign_gen, evalPlace_index]
-  have h1 := hPX0 A hA b spec ip stk mem env.lm env.scopes env.vm hb hwb hTb (hCB ▸ hpB) hrel.rel hsp
-  rw [hCB] at h1
-  rcases heb : evalExpr G.cfg n b spec with ⟨r1, st1⟩
-  rw [heb] at h1
-  cases r1 with
-  | error c1 => exact SimGS.of_exprError _ hrel hls h1
-  | ok bv =>
-  obtain ⟨hfr1, mem1, ob, hrun1, hml1⟩ := h1
-  simp only []
-  have hsp1 := hsp.world st1 hfr1
-  have hrel1 : StRel G.mod A.T A.N A.σ G.lim A.mp env.scopes env.vm st1.scopes mem1 := by
-    rw [hfr1]; exact hrel.rel.memLe hml1.cells
-  have h2 := hPX0 A hA i st1 (ip + nI CB.1) (⟨bv, ob⟩ :: stk) mem1 CB.2 env.scopes env.vm hi hwi hTi (hCI ▸ hpI) hrel1 hsp1
-  rw [hCI] at h2
-  rcases hei : evalExpr G.cfg n i st1 with ⟨r2, st2⟩
-  rw [hei] at h2
-  cases r2 with
-  | error c2 => exact SimGS.of_exprError _ hrel hls (SimOE.error_after 0 [⟨bv, ob⟩] hrun1 hfr1 hml1 h2)
-  | ok iv =>
-  obtain ⟨hfr2, mem2, oi, hrun2, hml2⟩ := h2
-  simp only []
-  have hfr12 : st2 = { spec with out := st2.out, heap := st2.heap } := by rw [hfr2, hfr1]
-  have hml12 := hml1.trans hml2
-  have hrun12 := hrun1.trans hrun2
-  have hidx := index_runs G A hA isp (ip + nI CB.1 + nI CI.1) stk mem2 st2 bv iv ob oi iidx
-  have hshape := placeOf_shape bv iv isp st2
-  rcases hp : placeOf bv iv isp st2 with ⟨rp, st2'⟩
-  rw [hp] at hshape
+  simp only [nI_append, hnS] at iasg hplD hplR hplO ⊢
+  simp only [← Nat.add_assoc] at iasg hplD hplR hplO
+  rw [evalExpr_assign_gen]
+  rcases hp : evalPlace G.cfg (n + 1) l spec with ⟨rp, st2'⟩
+  rw [hp] at hplace
   cases rp with
   | error cp =>
-    cases cp <;> first | trivial | exact hshape.elim | skip
-    obtain ⟨rfl, hiv⟩ := hshape
-    rw [hiv] at hidx
-    intro _
-    exact hrun12.fatal hidx
+    exact SimGS.of_exprError _ hrel hls (show SimGE G A ip (nI cl.1) stk mem spec (.error cp, st2') from hplace)
   | ok pl =>
-  obtain ⟨rfl, hvar, horg, cur, hiv, hread⟩ := hshape
-  rw [hiv] at hidx
-  simp only [horg] at hidx ⊢
-  have hrun3 := hrun12.trans hidx
+  obtain ⟨hfr12, hvar, mem2, cur, hread, hrun3, hml12⟩ := hplace
+  simp only []
   have hsp2 := hsp.world st2' hfr12
   have hrel2 : StRel G.mod A.T A.N A.σ G.lim A.mp env.scopes env.vm st2'.scopes mem2 := by
     rw [hfr12]; exact hrel.rel.memLe hml12.cells
@@ -139,7 +106,7 @@ theorem idxAssign_step (G : GCtx) (n : Nat) (hPX0 : PX G n) (hPX1 : PX G (n + 1)
   cases op with
   | none =>
     simp only [opPre, opPost, nI_nil, Nat.add_zero] at hplR iasg ⊢
-    have h3 := hPX1 A hA r st2' (ip + nI CB.1 + nI CI.1 + 1) (⟨cur, some (orgOf pl)⟩ :: stk) mem2 CI.2 env.scopes env.vm hr hwr hTr
+    have h3 := hPX1 A hA r st2' (ip + nI cl.1) (⟨cur, some (orgOf pl)⟩ :: stk) mem2 cl.2 env.scopes env.vm hr hwr hTr
       (hCR ▸ hplR) hrel2 hsp2
     rw [hCR] at h3
     rcases her : evalExpr G.cfg (n + 1) r st2' with ⟨r3, st3⟩
@@ -156,12 +123,12 @@ theorem idxAssign_step (G : GCtx) (n : Nat) (hPX0 : PX G n) (hPX1 : PX G (n + 1)
     simp only [opPre, opPost, hnD] at hplD hplR hplO iasg ⊢
     obtain ⟨idup, _⟩ := hplD.instr (i := .dup) rfl
     simp only [hread]
-    have hdup : Runs G.fr G.code G.lim G.s A.fn A.rest A.mp (ip + nI CB.1 + nI CI.1 + 1) (⟨cur, some (orgOf pl)⟩ :: stk) mem2
-        st2'.world (ip + nI CB.1 + nI CI.1 + 1 + 1) (⟨cur, some (orgOf pl)⟩ :: ⟨cur, some (orgOf pl)⟩ :: stk) mem2 st2'.world :=
+    have hdup : Runs G.fr G.code G.lim G.s A.fn A.rest A.mp (ip + nI cl.1) (⟨cur, some (orgOf pl)⟩ :: stk) mem2
+        st2'.world (ip + nI cl.1 + 1) (⟨cur, some (orgOf pl)⟩ :: ⟨cur, some (orgOf pl)⟩ :: stk) mem2 st2'.world :=
       Runs.of_exec1 (fr := G.fr) (mem := mem2) (fun it_ k =>
         mkS_dup G.code G.lim (withIt G.s it_) A.fn _ A.rest A.mp k stk mem2.cells st2'.world A.c hA.code asp _ idup)
     have hrun4 := hrun3.trans hdup
-    have h3 := hPX1 A hA r st2' (ip + nI CB.1 + nI CI.1 + 1 + 1) (⟨cur, some (orgOf pl)⟩ :: ⟨cur, some (orgOf pl)⟩ :: stk) mem2 CI.2
+    have h3 := hPX1 A hA r st2' (ip + nI cl.1 + 1) (⟨cur, some (orgOf pl)⟩ :: ⟨cur, some (orgOf pl)⟩ :: stk) mem2 cl.2
       env.scopes env.vm hr hwr hTr (hCR ▸ hplR) hrel2 hsp2
     rw [hCR] at h3
     rcases her : evalExpr G.cfg (n + 1) r st2' with ⟨r3, st3⟩
@@ -176,7 +143,7 @@ theorem idxAssign_step (G : GCtx) (n : Nat) (hPX0 : PX G n) (hPX1 : PX G (n + 1)
       have hrun5 := hrun4.trans hrunR
       have ha := fun it_ => exec_arith G.code G.lim (baseOf (withIt G.s it_) A.fn A.rest A.mp st3.world) ⟨A.fn, 0⟩
         A.rest A.c A.σ A.lab
-        rfl hA.code o asp cur bb (some (orgOf pl)) obb st3 (ip + nI CB.1 + nI CI.1 + 1 + 1 + nI CR.1)
+        rfl hA.code o asp cur bb (some (orgOf pl)) obb st3 (ip + nI cl.1 + 1 + nI CR.1)
         (⟨cur, some (orgOf pl)⟩ :: stk) mem3 hlog hplO rfl
       rcases hbo : binOp o cur bb asp st3 with ⟨rb, st4⟩
       have hst4 : st4 = st3 := by
@@ -193,6 +160,174 @@ theorem idxAssign_step (G : GCtx) (n : Nat) (hPX0 : PX G n) (hPX1 : PX G (n + 1)
         simp only [] at ha ⊢
         exact hwrite v none st4 mem3 _ (by rw [hfr3, hfr12]) (hml12.trans hml3) iasg (hrun5.trans (Runs.of_runsTo ha)) _
           (by omega)
+
+/-- **The slot `l[i]`**: `code(l); code(i); Index` against `evalPlace`. -/
+theorem index_place (G : GCtx) (n : Nat) (hPX0 : PX G n) (A : Act) (hA : A.OK G)
+    (isp : Span) (ity : Ty) (b i : Expr) (lm : LM) (scopes : CScopes) (vm : List (String × Nat))
+    (spec : St) (ip : Nat) (stk : List SVal) (mem : Mem)
+    (hl : Frag.okXE (.index isp ity b i) = true) (hwl : Frag.wsGE scopes A.φ (.index isp ity b i) = true)
+    (hT : ∀ x ∈ Frag.namesGE (.index isp ity b i), x ∈ A.T)
+    (hpl : Placed A.lab A.σ A.c ip (cgE G.mod (ρS scopes) A.φ (.index isp ity b i) lm).1)
+    (hrel : StRel G.mod A.T A.N A.σ G.lim A.mp scopes vm spec.scopes mem) (hsp : SpecOK G A.mp spec) :
+    SimPl G A ip (nI (cgE G.mod (ρS scopes) A.φ (.index isp ity b i) lm).1) stk mem spec
+      (evalPlace G.cfg (n + 1) (.index isp ity b i) spec) := by
+  simp only [Frag.okXE, Bool.and_eq_true] at hl
+  obtain ⟨⟨hb, hi⟩, _⟩ := hl
+  obtain ⟨hwb, hwi⟩ := wsGE_index hwl
+  obtain ⟨hTb, hTi⟩ := namesGE_index hT
+  simp only [cgE] at hpl ⊢
+  generalize hCB : cgE G.mod (ρS scopes) A.φ b lm = CB at hpl ⊢
+  generalize hCI : cgE G.mod (ρS scopes) A.φ i CB.2 = CI at hpl ⊢
+  obtain ⟨hBI, hplX⟩ := hpl.append
+  obtain ⟨hpB, hpI⟩ := hBI.append
+  obtain ⟨iidx, _⟩ := hplX.instr (i := .index) rfl
+  have hnX : nI [((Instr.index : SInstr), isp)] = 1 := rfl
+  simp only [nI_append, hnX] at iidx ⊢
+  simp only [← Nat.add_assoc] at iidx
+  rw [evalPlace_index]
+  have h1 := hPX0 A hA b spec ip stk mem lm scopes vm hb hwb hTb (hCB ▸ hpB) hrel hsp
+  rw [hCB] at h1
+  rcases heb : evalExpr G.cfg n b spec with ⟨r1, st1⟩
+  rw [heb] at h1
+  cases r1 with
+  | error c1 => exact SimPl.of_error (SimGE.error_n _ h1)
+  | ok bv =>
+  obtain ⟨hfr1, mem1, ob, hrun1, hml1⟩ := h1
+  simp only []
+  have hsp1 := hsp.world st1 hfr1
+  have hrel1 : StRel G.mod A.T A.N A.σ G.lim A.mp scopes vm st1.scopes mem1 := by
+    rw [hfr1]; exact hrel.memLe hml1.cells
+  have h2 := hPX0 A hA i st1 (ip + nI CB.1) (⟨bv, ob⟩ :: stk) mem1 CB.2 scopes vm hi hwi hTi (hCI ▸ hpI) hrel1 hsp1
+  rw [hCI] at h2
+  rcases hei : evalExpr G.cfg n i st1 with ⟨r2, st2⟩
+  rw [hei] at h2
+  cases r2 with
+  | error c2 => exact SimPl.of_error (SimOE.error_after _ [⟨bv, ob⟩] hrun1 hfr1 hml1 h2)
+  | ok iv =>
+  obtain ⟨hfr2, mem2, oi, hrun2, hml2⟩ := h2
+  simp only []
+  have hfr12 : st2 = { spec with out := st2.out, heap := st2.heap } := by rw [hfr2, hfr1]
+  have hml12 := hml1.trans hml2
+  have hrun12 := hrun1.trans hrun2
+  have hidx := index_runs G A hA isp (ip + nI CB.1 + nI CI.1) stk mem2 st2 bv iv ob oi iidx
+  have hshape := placeOf_shape bv iv isp st2
+  rcases hp : placeOf bv iv isp st2 with ⟨rp, st2'⟩
+  rw [hp] at hshape
+  cases rp with
+  | error cp =>
+    apply SimPl.of_error
+    cases cp <;> first | trivial | exact hshape.elim | skip
+    obtain ⟨rfl, hiv⟩ := hshape
+    rw [hiv] at hidx
+    intro _
+    exact hrun12.fatal hidx
+  | ok pl =>
+  obtain ⟨rfl, hvar, horg, cur, hiv, hread⟩ := hshape
+  rw [hiv] at hidx
+  simp only [horg] at hidx
+  exact ⟨hfr12, hvar, mem2, cur, hread, (hrun12.trans hidx).cast (by omega), hml12⟩
+
+/-- **`l[i] = e` and `l[i] op= e`**, given the value-position expressions at the two fuels below. -/
+theorem idxAssign_step (G : GCtx) (n : Nat) (hPX0 : PX G n) (hPX1 : PX G (n + 1))
+    (A : Act) (hA : A.OK G) (loops : List (String × String)) (lscopes : CScopes) (d : Nat)
+    (sp asp : Span) (op : Option InfixOp) (isp : Span) (ity : Ty) (b i r : Expr)
+    (env : CEnv) (spec : St) (ip : Nat) (stk : List SVal) (mem : Mem)
+    (hs : Frag.okFS G.fr (!loops.isEmpty) A.rt (.exprS sp (.assign asp op (.index isp ity b i) r)) = true)
+    (hT : ∀ x ∈ Frag.identsGS (.exprS sp (.assign asp op (.index isp ity b i) r)), x ∈ A.T)
+    (hws : Frag.wsGS G.mod A.src A.φ loops (.exprS sp (.assign asp op (.index isp ity b i) r)) env = true)
+    (hpl : Placed A.lab A.σ A.c ip (cgS G.mod A.src A.φ loops (.exprS sp (.assign asp op (.index isp ity b i) r)) env).1)
+    (hls : lscopes = env.scopes.drop d)
+    (hrel : GRel G A env.scopes env.vm spec.scopes mem) (hsp : SpecOK G A.mp spec) :
+    SimGS G A loops lscopes d ip
+      (nI (cgS G.mod A.src A.φ loops (.exprS sp (.assign asp op (.index isp ity b i) r)) env).1) stk mem
+      (GRel G A (cgS G.mod A.src A.φ loops (.exprS sp (.assign asp op (.index isp ity b i) r)) env).2.scopes
+        (cgS G.mod A.src A.φ loops (.exprS sp (.assign asp op (.index isp ity b i) r)) env).2.vm) spec
+      (evalExpr G.cfg (n + 2) (.assign asp op (.index isp ity b i) r) spec) := by
+  simp only [okFS_idxAssign, Bool.and_eq_true] at hs
+  obtain ⟨⟨⟨hop, hl⟩, hr⟩, _⟩ := hs
+  simp only [wsGS_idxAssign, Bool.and_eq_true] at hws
+  obtain ⟨hwl, hwr⟩ := hws
+  simp only [identsGS_idxAssign, List.mem_append] at hT
+  rw [cgS_idxAssign] at hpl ⊢
+  have hplL := hpl.append.1.append.1.append.1.append.1
+  exact placeAssign_step G n hPX1 A hA loops lscopes d asp op _ r _ env spec ip stk mem hop hr hwr
+    (fun x hx => hT x (Or.inr hx)) hpl hls hrel hsp
+    (index_place G n hPX0 A hA isp ity b i env.lm env.scopes env.vm spec ip stk mem hl hwl
+      (fun x hx => hT x (Or.inl hx)) hplL hrel.rel hsp)
+
+/-- **The slot `o.f`**: `code(o); Member f` against `evalPlace`. -/
+theorem member_place (G : GCtx) (n : Nat) (hPX0 : PX G n) (A : Act) (hA : A.OK G)
+    (msp : Span) (mty : Ty) (b : Expr) (name : String) (lm : LM) (scopes : CScopes) (vm : List (String × Nat))
+    (spec : St) (ip : Nat) (stk : List SVal) (mem : Mem)
+    (hl : Frag.okXE (.member msp mty b name .dot) = true) (hwl : Frag.wsGE scopes A.φ (.member msp mty b name .dot) = true)
+    (hT : ∀ x ∈ Frag.namesGE (.member msp mty b name .dot), x ∈ A.T)
+    (hpl : Placed A.lab A.σ A.c ip (cgE G.mod (ρS scopes) A.φ (.member msp mty b name .dot) lm).1)
+    (hrel : StRel G.mod A.T A.N A.σ G.lim A.mp scopes vm spec.scopes mem) (hsp : SpecOK G A.mp spec) :
+    SimPl G A ip (nI (cgE G.mod (ρS scopes) A.φ (.member msp mty b name .dot) lm).1) stk mem spec
+      (evalPlace G.cfg (n + 1) (.member msp mty b name .dot) spec) := by
+  simp only [Frag.okXE] at hl
+  have hwb : Frag.wsGE scopes A.φ b = true := by
+    simpa [Frag.wsGE, Frag.varsGE, Frag.callsGE] using hwl
+  have hTb : ∀ x ∈ Frag.namesGE b, x ∈ A.T := by
+    intro x hx; exact hT x (by simpa [Frag.namesGE, Frag.varsGE, Frag.callsGE] using hx)
+  simp only [cgE] at hpl ⊢
+  generalize hCB : cgE G.mod (ρS scopes) A.φ b lm = CB at hpl ⊢
+  obtain ⟨hpB, hplX⟩ := hpl.append
+  obtain ⟨imem, _⟩ := hplX.instr (i := .member name) rfl
+  have hnX : nI [((Instr.member name : SInstr), msp)] = 1 := rfl
+  simp only [nI_append, hnX] at ⊢
+  rw [evalPlace_member]
+  have h1 := hPX0 A hA b spec ip stk mem lm scopes vm hl hwb hTb (hCB ▸ hpB) hrel hsp
+  rw [hCB] at h1
+  rcases heb : evalExpr G.cfg n b spec with ⟨r1, st1⟩
+  rw [heb] at h1
+  cases r1 with
+  | error c1 => exact SimPl.of_error (SimGE.error_n _ h1)
+  | ok bv =>
+  obtain ⟨hfr1, mem1, ob, hrun1, hml1⟩ := h1
+  simp only []
+  have hmr := member_runs G A hA msp (ip + nI CB.1) stk mem1 st1 bv name ob imem
+  have hshape := placeOfM_shape bv name msp st1
+  rcases hp : placeOfM bv name st1 with ⟨rp, st1'⟩
+  rw [hp] at hshape
+  cases rp with
+  | error cp =>
+    apply SimPl.of_error
+    cases cp <;> first | trivial | exact hshape.elim
+  | ok pl =>
+  obtain ⟨rfl, hvar, horg, cur, hmv, hread⟩ := hshape
+  rw [hmv] at hmr
+  simp only [horg] at hmr
+  exact ⟨hfr1, hvar, mem1, cur, hread, (hrun1.trans hmr).cast (by omega), hml1⟩
+
+/-- **`o.f = e` and `o.f op= e`**. -/
+theorem memAssign_step (G : GCtx) (n : Nat) (hPX0 : PX G n) (hPX1 : PX G (n + 1))
+    (A : Act) (hA : A.OK G) (loops : List (String × String)) (lscopes : CScopes) (d : Nat)
+    (sp asp : Span) (op : Option InfixOp) (msp : Span) (mty : Ty) (b : Expr) (name : String) (r : Expr)
+    (env : CEnv) (spec : St) (ip : Nat) (stk : List SVal) (mem : Mem)
+    (hs : Frag.okFS G.fr (!loops.isEmpty) A.rt (.exprS sp (.assign asp op (.member msp mty b name .dot) r)) = true)
+    (hT : ∀ x ∈ Frag.identsGS (.exprS sp (.assign asp op (.member msp mty b name .dot) r)), x ∈ A.T)
+    (hws : Frag.wsGS G.mod A.src A.φ loops (.exprS sp (.assign asp op (.member msp mty b name .dot) r)) env = true)
+    (hpl : Placed A.lab A.σ A.c ip
+      (cgS G.mod A.src A.φ loops (.exprS sp (.assign asp op (.member msp mty b name .dot) r)) env).1)
+    (hls : lscopes = env.scopes.drop d)
+    (hrel : GRel G A env.scopes env.vm spec.scopes mem) (hsp : SpecOK G A.mp spec) :
+    SimGS G A loops lscopes d ip
+      (nI (cgS G.mod A.src A.φ loops (.exprS sp (.assign asp op (.member msp mty b name .dot) r)) env).1) stk mem
+      (GRel G A (cgS G.mod A.src A.φ loops (.exprS sp (.assign asp op (.member msp mty b name .dot) r)) env).2.scopes
+        (cgS G.mod A.src A.φ loops (.exprS sp (.assign asp op (.member msp mty b name .dot) r)) env).2.vm) spec
+      (evalExpr G.cfg (n + 2) (.assign asp op (.member msp mty b name .dot) r) spec) := by
+  simp only [okFS_memAssign, Bool.and_eq_true] at hs
+  obtain ⟨⟨⟨hop, hl⟩, hr⟩, _⟩ := hs
+  simp only [wsGS_memAssign, Bool.and_eq_true] at hws
+  obtain ⟨hwl, hwr⟩ := hws
+  simp only [identsGS_memAssign, List.mem_append] at hT
+  rw [cgS_memAssign] at hpl ⊢
+  have hplL := hpl.append.1.append.1.append.1.append.1
+  exact placeAssign_step G n hPX1 A hA loops lscopes d asp op _ r _ env spec ip stk mem hop hr hwr
+    (fun x hx => hT x (Or.inr hx)) hpl hls hrel hsp
+    (member_place G n hPX0 A hA msp mty b name env.lm env.scopes env.vm spec ip stk mem hl hwl
+      (fun x hx => hT x (Or.inl hx)) hplL hrel.rel hsp)
 
 theorem SimGS.exprS {G : GCtx} {A : Act} {loops lscopes d ip n stk mem Q st} (r : Except Ctl Val × St) :
     SimGS G A loops lscopes d ip n stk mem Q st r →
